@@ -207,7 +207,7 @@ def boot(cfg=None, reopen_ok=False, hybrid=True):
                                add_fp(length=BOOT_LEN, ck=st.sampled_from([1, 1, 2, 0]), ns=st.sampled_from([7, 1]), d=st.just(0), file=st.just(False)),
                                add_dir(d=st.just(0))), min_size=1, max_size=5)
     boots = st.lists(st.one_of(add_boot, add_boot, add_boot, link_cat), min_size=1, max_size=4)
-    many = st.lists(add_boot, min_size=0, max_size=34).filter(lambda l: True)
+    many = st.lists(add_boot, min_size=28, max_size=34)       # (with the entries before: a catalogue that is full, or one short of it)
     body_choices = [add_fp(length=SMALL_LEN), rm_file, rm_link, rm_link, add_link, hide, query, write, force, add_boot, rm_boot, link_cat, dup_pvd, add_dir(), rm_catlink]
     if hybrid:
         body_choices += [add_hybrid, add_hybrid, rm_hybrid]
